@@ -3,6 +3,7 @@ package main
 import (
 	"bytes"
 	"fmt"
+	"os"
 	"os/exec"
 	"strings"
 
@@ -40,6 +41,22 @@ func runC16(e *hk.Env) error {
 	}
 	gen(nil, maxLen)
 	e.Stats["exhaustive_strings"] = len(inputs)
+	// second exhaustive pass: a wider alphabet (tab, CR, braces, comma, glob/redirect/grouping characters, '=', '/', '%') up to length 3
+	wide := append(append([]byte{}, c16Alphabet...), '\t', '\r', '{', ',', '}', '?', '[', ']', '<', '>', '(', ')', '=', '/', '%', '^', '-')
+	var gen2 func(prefix []byte, l int)
+	gen2 = func(prefix []byte, l int) {
+		if len(prefix) > 0 {
+			inputs = append(inputs, string(prefix))
+		}
+		if l == 0 {
+			return
+		}
+		for _, c := range wide {
+			gen2(append(prefix[:len(prefix):len(prefix)], c), l-1)
+		}
+	}
+	gen2(nil, 3)
+	e.Stats["exhaustive_wide_alphabet_len3"] = len(wide)
 	e.Stats["exhaustive_max_len"] = maxLen
 	// every single byte except NUL, and "~/" + every byte
 	for b := 1; b < 256; b++ {
@@ -80,6 +97,36 @@ func runC16(e *hk.Env) error {
 	e.Stats["random_strings"] = nRandom
 	e.Stats["random_len_hist_by_64"] = lens
 
+	// The functions must not depend on process-global state: repeat a subset of the inputs under other
+	// environments (a "fish support" keyed on $SHELL was a seeded regression) and append them as further cases.
+	envVariants := [][2]string{{"SHELL", "/usr/bin/fish"}, {"SHELL", "fish"}, {"SHELL", "/bin/zsh"}, {"SHELL", ""},
+		{"HOME", "/we ird'home"}, {"LANG", "C"}, {"LC_ALL", "tr_TR.UTF-8"}, {"IFS", ":"}, {"GOOS", "windows"}, {"TERM", "dumb"}}
+	type envCase struct{ s, e, t string }
+	var envCases []envCase
+	subset := []string{}
+	for i := 0; i < n0 && i < len(inputs); i++ {
+		if len(inputs[i]) <= 2 {
+			subset = append(subset, inputs[i])
+		}
+	}
+	for b := 1; b < 256; b++ {
+		subset = append(subset, "x"+string([]byte{byte(b)})+"'y", "~/"+string([]byte{byte(b)}))
+	}
+	for _, ev := range envVariants {
+		old, had := os.LookupEnv(ev[0])
+		os.Setenv(ev[0], ev[1])
+		for _, s := range subset {
+			envCases = append(envCases, envCase{s, strutil.ShellEscape(s), strutil.ShellEscapeExceptTilde(s)})
+		}
+		if had {
+			os.Setenv(ev[0], old)
+		} else {
+			os.Unsetenv(ev[0])
+		}
+	}
+	e.Stats["env_variants"] = len(envVariants)
+	e.Stats["env_variant_cases"] = len(envCases)
+
 	esc := make([]string, len(inputs))
 	esct := make([]string, len(inputs))
 	nq := 0
@@ -90,6 +137,13 @@ func runC16(e *hk.Env) error {
 			nq++
 		}
 		e.Case("E", hk.Hxs(s), hk.Hxs(esc[i]), hk.Hxs(esct[i]))
+	}
+	// env-variant cases are appended to the same arrays so that the real shells judge them too
+	for _, c := range envCases {
+		inputs = append(inputs, c.s)
+		esc = append(esc, c.e)
+		esct = append(esct, c.t)
+		e.Case("E", hk.Hxs(c.s), hk.Hxs(c.e), hk.Hxs(c.t))
 	}
 	e.Stats["cases"] = len(inputs)
 	e.Stats["with_single_quote"] = nq
